@@ -1155,7 +1155,8 @@ func main() {
 		idx, _ := strconv.Atoi(os.Args[2])
 		seed, _ := strconv.ParseUint(os.Args[3], 10, 64)
 		work := filepath.Join(os.Getenv("VERIF_WORK"), "c03")
-		runColCase(idx, gen.New(seed), work, os.Args[4] == "1", func(in *ColInstance) { gen.Emit(in) })
+		kind, _ := strconv.Atoi(os.Args[4])
+		runColCase(idx, gen.New(seed), work, kind, func(in *ColInstance) { gen.Emit(in) })
 		return
 	}
 	n := 40
@@ -1185,11 +1186,20 @@ func main() {
 	}
 	rc := gen.FromEnv(303)
 	for i := 0; i < ncol; i++ {
-		spawnColCase(i, rc.Uint64(), work, false, func(in *ColInstance) { gen.Emit(in) })
+		spawnColCase(i, rc.Uint64(), work, 0, func(in *ColInstance) { gen.Emit(in) })
 	}
 	rs := gen.FromEnv(3003)
 	for i := 0; i < nseg; i++ {
-		spawnColCase(100000+i, rs.Uint64(), work, true, func(in *ColInstance) { gen.Emit(in) })
+		spawnColCase(100000+i, rs.Uint64(), work, 1, func(in *ColInstance) { gen.Emit(in) })
+	}
+	// column-level cases with files written under another max-rows-per-segment
+	nchg := 0
+	if len(os.Args) > 5 {
+		nchg, _ = strconv.Atoi(os.Args[5])
+	}
+	rg := gen.FromEnv(300003)
+	for i := 0; i < nchg; i++ {
+		spawnColCase(200000+i, rg.Uint64(), work, 2, func(in *ColInstance) { gen.Emit(in) })
 	}
 	// fault-injection cases (injected I/O errors and stops instead of process kills)
 	nfault := 0
